@@ -80,6 +80,11 @@ const (
 	c10haFailover = "failover"
 	c10haRestart  = "restart"
 	c10haStepDown = "stepdown"
+	// operations addressed to a namespace with its own Shamir seal (part N)
+	c10haNSWrite   = "ns-write"
+	c10haNSRotate  = "ns-rotate"
+	c10haNSRotRoot = "ns-rotate-root"
+	c10haNSRekey   = "ns-rotate-root-shares"
 )
 
 // liveness bound of every wait (never an oracle)
@@ -108,9 +113,10 @@ func (l *c10haLog) String() string {
 }
 
 type c10haImage struct {
-	Data   map[string][]byte
-	Root   string
-	Shares [][]byte
+	Data     map[string][]byte
+	Root     string
+	Shares   [][]byte
+	NSShares []string // shares of the sealable namespace (c10nNS)
 }
 
 // c10haKR is a deep copy of a keyring (Keyring.Clone shares the key slices, which
@@ -148,6 +154,12 @@ type c10haPair struct {
 	shareT   int
 	restarts int
 	regained bool // the node that stepped down won the lock back
+
+	// part N: the namespace with its own seal
+	nsHeld    []string          // shares the operator holds
+	nsEntries map[string]string // entries acknowledged inside the namespace
+	nsTouched bool              // the history addressed the namespace
+	nsGen     int
 }
 
 // pause of a node after sys/step-down before it contends for the lock again (production: 10 s)
@@ -270,8 +282,20 @@ func c10haBuildImage(t *testing.T) *c10haImage {
 	s := &Sys{T: t, Core: c, Phys: ctl, Root: root, Keys: shares, Rec: rec}
 	s.Mount("rec/", "rec")
 	s.Must(s.Req(root, logical.UpdateOperation, "rec/kv/a", map[string]interface{}{"value": "EARLIER"}))
+	// a namespace with its own Shamir seal (3 shares, threshold 3), a mount and an entry in it
+	resp, err := s.Req(root, logical.UpdateOperation, "sys/namespaces/"+c10nNS, map[string]interface{}{"seal": `seal "shamir" { shares = "3" threshold = "3" }`})
+	if !OK(resp, err) || resp == nil {
+		t.Fatalf("harness: create namespace: %s", ErrText(resp, err))
+	}
+	nsShares, _ := resp.Data["key_shares"].([]string)
+	if ok, last := c10nUnseal(s, nsShares); !ok {
+		t.Fatalf("harness: new namespace does not unseal: %s", last)
+	}
+	ns := c10nNamespace(s)
+	s.Must(s.ReqNS(ns, root, logical.UpdateOperation, "sys/mounts/rec", map[string]interface{}{"type": "rec"}))
+	s.Must(s.ReqNS(ns, root, logical.UpdateOperation, "rec/kv/a", map[string]interface{}{"value": "EARLIER-NS"}))
 	c10haSettle(c, ctl)
-	img := &c10haImage{Data: ctl.Snapshot(), Root: root, Shares: shares}
+	img := &c10haImage{Data: ctl.Snapshot(), Root: root, Shares: shares, NSShares: nsShares}
 	c10haShutdown(c)
 	return img
 }
@@ -293,6 +317,8 @@ func c10haBoot(t *testing.T, img *c10haImage) (*c10haPair, *c10haOutcome) {
 	}
 	p.term = kr.term
 	p.entries = []c10haEntry{{"a", "EARLIER", c10haRawTerm(p, "a")}}
+	p.nsHeld = img.NSShares
+	p.nsEntries = map[string]string{"a": "EARLIER-NS"}
 	return p, nil
 }
 
@@ -667,6 +693,59 @@ func (p *c10haPair) probe() *c10haOutcome {
 	if msg, ok := p.readAll(s); !ok {
 		return c10haViol("entry-lost-after-restart", "a new node on a copy of the store, unsealed with the currently valid shares: %s", msg)
 	}
+	if p.nsTouched {
+		if out := p.nsReady(s, "a new node on a copy of the store"); out != nil {
+			out.sig += "-after-restart"
+			return out
+		}
+	}
+	return nil
+}
+
+// nsReady: the namespace is unsealed on node s with the shares the operator holds (a node
+// that became active, or a restarted one, has it sealed) and every entry acknowledged
+// inside it reads back.
+func (p *c10haPair) nsReady(s *Sys, where string) *c10haOutcome {
+	if c10nSealed(s) {
+		if ok, last := c10nUnseal(s, p.nsHeld); !ok {
+			return c10haViol("namespace-unsealable-with-held-shares", "%s: namespace %s/ does not unseal with the %d share(s) its operator holds (share generation %d): %s", where, c10nNS, len(p.nsHeld), p.nsGen, last)
+		}
+	}
+	ns := c10nNamespace(s)
+	for k, v := range p.nsEntries {
+		if m := c10nRead(s, ns, k, v); m != "" {
+			return c10haViol("namespace-entry-lost", "%s: inside namespace %s/: %s", where, c10nNS, m)
+		}
+	}
+	return nil
+}
+
+// nsStep: one operation addressed to the namespace on the active node.
+func (p *c10haPair) nsStep(op string) *c10haOutcome {
+	s := p.sys(p.active)
+	p.nsTouched = true
+	if out := p.nsReady(s, "before "+op+" on the active node"); out != nil {
+		return out
+	}
+	ns := c10nNamespace(s)
+	switch op {
+	case c10haNSWrite:
+		name := fmt.Sprintf("n%d", len(p.nsEntries))
+		resp, err := s.ReqNS(ns, p.root, logical.UpdateOperation, "rec/kv/"+name, map[string]interface{}{"value": "V-" + name})
+		if !OK(resp, err) {
+			return c10haViol("namespace-write-refused", "the active node refuses a write inside the unsealed namespace: %s", ErrText(resp, err))
+		}
+		p.nsEntries[name] = "V-" + name
+	default:
+		shares, err := c10nAct(s, ns, p.nsHeld, op)
+		if err != nil {
+			return c10haViol("namespace-operation-refused", "%s inside the unsealed namespace on the active node failed: %v", op, err)
+		}
+		if len(shares) > 0 {
+			p.nsHeld = shares
+			p.nsGen++
+		}
+	}
 	return nil
 }
 
@@ -675,11 +754,11 @@ func (p *c10haPair) modelKey() string {
 	for _, e := range p.entries {
 		terms = append(terms, strconv.Itoa(int(e.term)))
 	}
-	return fmt.Sprintf("entries@terms=%s term=%d rootgen=%d shares=%d:(%d,%d) active=%d restarts=%d", strings.Join(terms, ","), p.term, p.rootGen, p.shareGen, p.shareN, p.shareT, p.active, p.restarts)
+	return fmt.Sprintf("entries@terms=%s term=%d rootgen=%d shares=%d:(%d,%d) active=%d restarts=%d", strings.Join(terms, ","), p.term, p.rootGen, p.shareGen, p.shareN, p.shareT, p.active, p.restarts) + fmt.Sprintf(" ns=%v:%d:%d", p.nsTouched, p.nsGen, len(p.nsEntries))
 }
 
 type c10haStats struct {
-	failovers, stepdowns, rekeys, rotations, rootRotations, restarts, writes, probes int64
+	failovers, stepdowns, rekeys, rotations, rootRotations, restarts, writes, probes, nsOps int64
 }
 
 // step applies one operation and then the per-step oracle.
@@ -742,6 +821,11 @@ func (p *c10haPair) step(op string, st *c10haStats) *c10haOutcome {
 			return out
 		}
 		st.restarts++
+	case c10haNSWrite, c10haNSRotate, c10haNSRotRoot, c10haNSRekey:
+		if out := p.nsStep(op); out != nil {
+			return out
+		}
+		st.nsOps++
 	default:
 		p.t.Fatalf("harness: unknown operation %q", op)
 	}
@@ -761,6 +845,11 @@ func (p *c10haPair) step(op string, st *c10haStats) *c10haOutcome {
 	}
 	if kr.term != p.term {
 		return c10haViol("active-term-wrong", "the active node's key term is %d, %d rotations from the initial term give %d", kr.term, st.rotations, p.term)
+	}
+	if p.nsTouched {
+		if out := p.nsReady(p.sys(p.active), fmt.Sprintf("on the active node (node %d) after %s", p.active, op)); out != nil {
+			return out
+		}
 	}
 	st.probes++
 	return p.probe()
@@ -861,7 +950,7 @@ func TestVerifC10HA(t *testing.T) {
 				}
 				return
 			}
-			if mustContain != "" && !strings.Contains(">"+strings.Join(h, ">")+">", ">"+mustContain+">") {
+			if mustContain != "" && !strings.Contains(">"+strings.Join(h, ">")+">", mustContain) {
 				return
 			}
 			total++
@@ -883,7 +972,7 @@ func TestVerifC10HA(t *testing.T) {
 			if mustContain != "" {
 				// prefixes without the required symbol were states of the main part already;
 				// with it, a prefix is new when the remainder is the first symbol only
-				for firstNew < len(h)-1 && !strings.Contains(">"+strings.Join(h[:firstNew+1], ">")+">", ">"+mustContain+">") {
+				for firstNew < len(h)-1 && !strings.Contains(">"+strings.Join(h[:firstNew+1], ">")+">", mustContain) {
 					firstNew++
 				}
 			}
@@ -925,7 +1014,27 @@ func TestVerifC10HA(t *testing.T) {
 	}
 	enumerate(alphabet, depth, "")
 	if sdDepth > 0 {
-		enumerate(append(append([]string{}, alphabet...), c10haStepDown), sdDepth, c10haStepDown)
+		enumerate(append(append([]string{}, alphabet...), c10haStepDown), sdDepth, ">"+c10haStepDown+">")
+	}
+	// Part N: operations addressed to a namespace with its own Shamir seal (a write, an
+	// encryption-key rotation, a share-less root-key rotation and a share-based one to
+	// (5,2) of THAT namespace's barrier) mixed with root-level writes and root rotation and
+	// with every kind of leadership change.  A node that takes over (or restarts) has the
+	// namespace sealed: it must unseal with the shares the namespace's operator holds and
+	// read everything back; root-level clauses as before.  Only histories that address the
+	// namespace are run here.
+	nsDepth := 3
+	if vout.Thorough() {
+		nsDepth = 4
+	}
+	if v, err := strconv.Atoi(os.Getenv("VERIF_C10HA_NSDEPTH")); err == nil {
+		nsDepth = v
+	}
+	nsAlphabet := []string{c10haWrite, c10haRotRoot, c10haFailover, c10haRestart, c10haStepDown, c10haNSWrite, c10haNSRotate, c10haNSRotRoot, c10haNSRekey}
+	res.Bound("ha_namespace_history_depth", nsDepth)
+	res.Bound("ha_namespace_alphabet", nsAlphabet)
+	if nsDepth > 0 {
+		enumerate(nsAlphabet, nsDepth, ">ns-")
 	}
 
 	res.Add("failovers_performed", st.failovers)
@@ -937,6 +1046,7 @@ func TestVerifC10HA(t *testing.T) {
 	res.Add("restarts_performed", st.restarts)
 	res.Add("writes_performed", st.writes)
 	res.Add("restart_probes", st.probes)
+	res.Add("namespace_operations", st.nsOps)
 	res.Max("slowest_history_ms", int64(slowest/time.Millisecond))
 	t.Logf("C10 ha: depth %d (+ step-down histories of depth %d), %d histories in total, failovers %d, step-downs %d, rekeys %d, rotations %d, root rotations %d, restarts %d, probes %d, slowest history %v",
 		depth, sdDepth, total, st.failovers, st.stepdowns, st.rekeys, st.rotations, st.rootRotations, st.restarts, st.probes, slowest)
